@@ -942,11 +942,15 @@ def finishStep (info : OpInfo) (cont : Frame → Global → RunRes) (fr2 : Frame
   else if info.halts then ⟨res, none, fr2.gas, g3⟩
   else cont (if info.jumps then fr2 else { fr2 with pc := fr2.pc + 1 }) g3
 
+/-- ghost bookkeeping at the head of an iteration -/
+def Global.observe (g : Global) (depth stackLen : Nat) : Global :=
+  { g with steps := g.steps + 1, hwStack := max g.hwStack stackLen, hwDepth := max g.hwDepth depth }
+
 /-- `EVMInterpreter.Run`'s `for` loop. `depth` is `evm.depth` inside this Run. -/
 def runLoop (cx : Ctx) : (fuel : Nat) → Runner
   | 0, _, _, fr, g => ⟨#[], some .outOfFuel, fr.gas, g⟩
   | fuel + 1, depth, ro, fr, g =>
-    match stepPre cx ro fr g with
+    match stepPre cx ro fr (g.observe depth fr.stack.length) with
     | .fault e g' => ⟨#[], some e, fr.gas, g'⟩
     | .ok info fr1 args g1 cgt =>
       match execOp cx ro info.exec fr1 args g1 cgt with
